@@ -278,14 +278,14 @@ where I: Iterator + Clone, C: Fn(Option<I::Item>) -> Value {
             3 | 4 => (json!({"op": "nth", "k": enc_arg_small(k)}), match guarded(|| conv(it.nth(k))) { Ok(v) => v, Err(_) => json!([8, 0, 0]) }),
             5 | 6 if ops.next_back.is_some() => (json!({"op": "next_back"}), match guarded(|| conv((ops.next_back.unwrap())(&mut it))) { Ok(v) => v, Err(_) => json!([8, 0, 0]) }),
             7 if ops.nth_back.is_some() => (json!({"op": "nth_back", "k": enc_arg_small(k)}), match guarded(|| conv((ops.nth_back.unwrap())(&mut it, k))) { Ok(v) => v, Err(_) => json!([8, 0, 0]) }),
-            8 if ops.len.is_some() => (json!({"op": "len"}), json!([2, enc((ops.len.unwrap())(&it)), 0])),
+            8 if ops.len.is_some() => (json!({"op": "len"}), match guarded(|| (ops.len.unwrap())(&it)) { Ok(n) => json!([2, enc(n), 0]), Err(_) => json!([8, 0, 0]) }),
             9 => { let c = it.clone(); it = c; (json!({"op": "clone"}), json!([3, 0, 0])) },
             _ => continue,
         };
-        let len = ops.len.map(|f| enc(f(&it))).unwrap_or(json!(0));
+        let len = match ops.len { Some(f) => match guarded(|| f(&it)) { Ok(n) => enc(n), Err(_) => json!(-8) }, None => json!(0) };
         out.push(json!({"e": "it_call", "c": c, "res": res, "len": len}));
         done += 1;
-        if res[0] == json!(8) { break; }
+        if res[0] == json!(8) || len == json!(-8) { break; }
     }
     done
 }
